@@ -11,6 +11,23 @@ REPO = os.environ.get("BIGTREE_REPO", "/repo")
 if REPO not in sys.path:
     sys.path.insert(0, REPO)
 
+# ------------------------------------------------------------------ user-hook faults
+class UserHookFault(Exception):
+    """an exception class of the user's own"""
+
+
+def hook_exc(op, msg="user hook"):
+    """the exception a raising user hook throws while `op` (a JSON-able op tuple of the case) runs. The CLASS is a
+    function of the op alone, so a case replays exactly; it ranges over plain built-ins, a user-defined class and
+    bigtree's own exception classes (a hook may well raise those: roll-back must not depend on the class)"""
+    import zlib
+    from bigtree.utils import exceptions as bx
+    classes = [RuntimeError, bx.TreeError, ValueError, bx.LoopError, UserHookFault, bx.DuplicatedNodeError, KeyError,
+               AttributeError, TypeError, bx.NotFoundError, bx.SearchError, bx.CorruptedTreeError, AssertionError, IndexError]
+    k = zlib.crc32(repr(op).encode()) % len(classes) if op is not None else 0
+    return classes[k](msg)
+
+
 # ------------------------------------------------------------------ protocol
 def hx(s: str) -> str:
     return "x" + s.encode("utf-8").hex()
